@@ -331,8 +331,9 @@ impl SendRateComp {
                         self.send_rate = (self.send_rate/2).max(MINIMUM_RATE);
                     }
                 } else {
-                    // In slow start, but no feedback has been received.
-                    debug_assert!(self.nofeedback_idle == false);
+                    // In slow start, but no feedback has been received. Without an RTT estimate
+                    // there is no recover_rate to compare against, so the rate is halved whether or
+                    // not the sender has been idle since the timer was set.
 
                     // Halve send rate every RTO, subject to minimum
                     self.send_rate = (self.send_rate/2).max(MINIMUM_RATE);
